@@ -71,6 +71,74 @@ class Outcome:
         return "raised %s(%s)" % (type(self.exc).__name__, short(str(self.exc), 120))
 
 
+class CaseTimeout(BaseException):
+    """safety net: one oracle evaluation ran for longer than CASE_TIMEOUT_S seconds (reported as harness error,
+    never as a violation)"""
+
+
+CASE_TIMEOUT_S = 60
+
+
+def _alarm(signum, frame):
+    raise CaseTimeout()
+
+
+def arm_watchdog(seconds=CASE_TIMEOUT_S):
+    import signal
+    try:
+        signal.signal(signal.SIGALRM, _alarm)
+        signal.setitimer(signal.ITIMER_REAL, seconds)
+    except (ValueError, AttributeError):
+        pass
+
+
+def disarm_watchdog():
+    import signal
+    try:
+        signal.setitimer(signal.ITIMER_REAL, 0)
+    except (ValueError, AttributeError):
+        pass
+
+
+class cpu_limit:
+    """Context manager: more than `seconds` of *CPU time* (ITIMER_VIRTUAL, independent of machine load) inside the
+    block raises OpBudgetExceeded.  Used as the termination bound where reads go through library-internal
+    substreams that an operation-counting outer stream cannot see."""
+
+    def __init__(self, seconds):
+        self.seconds = seconds
+
+    def _fire(self, signum, frame):
+        raise OpBudgetExceeded("more than %s CPU seconds" % self.seconds)
+
+    def __enter__(self):
+        import signal
+        try:
+            self.old = signal.signal(signal.SIGVTALRM, self._fire)
+            signal.setitimer(signal.ITIMER_VIRTUAL, self.seconds)
+        except (ValueError, AttributeError):
+            self.old = None
+        return self
+
+    def __exit__(self, *a):
+        import signal
+        try:
+            signal.setitimer(signal.ITIMER_VIRTUAL, 0)
+            if self.old is not None:
+                signal.signal(signal.SIGVTALRM, self.old)
+        except (ValueError, AttributeError):
+            pass
+        return False
+
+
+def limit_memory(gb=6):
+    try:
+        import resource
+        resource.setrlimit(resource.RLIMIT_AS, (gb << 30, gb << 30))
+    except Exception:
+        pass
+
+
 class OpBudgetExceeded(BaseException):
     """Raised by CountingStream; BaseException so `except Exception` in the library cannot swallow it."""
 
@@ -293,7 +361,12 @@ class Ctx:
         reported = set()
 
         def body(case):
-            f = oracle(case)
+            last["current"] = case
+            arm_watchdog()
+            try:
+                f = oracle(case)
+            finally:
+                disarm_watchdog()
             if f is None:
                 return
             if ctx.is_known(f):
@@ -339,12 +412,20 @@ class Ctx:
             except hypothesis.errors.Unsatisfiable as e:
                 self.stats.harness_errors.append("Unsatisfiable in %s: %s" % (name, e))
                 break
+            except CaseTimeout:
+                self.stats.harness_errors.append("a case in %s ran longer than %ds (inconclusive, not a violation): %s" % (
+                    name, CASE_TIMEOUT_S, short(last.get("current"), 600)))
+                break
             used = max(1, self.stats.evaluations - before)
             remaining -= used
 
     def check_case(self, case, oracle):
         """Enumeration driver: run oracle on one explicit case."""
-        f = oracle(case)
+        arm_watchdog()
+        try:
+            f = oracle(case)
+        finally:
+            disarm_watchdog()
         return self.handle(f, case)
 
 
